@@ -289,7 +289,7 @@ package gohlslib
 //@        && has(s.server.pathHandlers, partPath(s.prefix, s.id, s.nextPartID)))
 //@   ensures forall(k, old(has(s.server.pathHandlers, k)) ==> has(s.server.pathHandlers, k))
 //@   ensures storage.fileOpen(old(s.nextPart.segment).storage) && handlersOK(s.server)
-//@   ensures [C03] local (result == nil && s.isLeading && s.variant == MuxerVariantLowLatency) ==> (s.partTargetDuration >= old(s.nextPart).getDuration()
+//@   ensures [C03,C19] local (result == nil && s.isLeading && s.variant == MuxerVariantLowLatency) ==> (s.partTargetDuration >= old(s.nextPart).getDuration()
 //@        && forall(j, (0 <= j && j < len(old(s.nextPart.segment).parts)) ==> s.partTargetDuration >= old(s.nextPart.segment).parts[j].getDuration())
 //@        && forall(i, j, (0 <= i && i < len(s.segments) && isF(s.segments[i]) && 0 <= j && j < len(asF(s.segments[i]).parts)) ==> s.partTargetDuration >= asF(s.segments[i]).parts[j].getDuration()))
 //@ end
